@@ -43,7 +43,7 @@ func (c Case) Text() string {
 var candidates = []string{"z", "m", "a", "b", "c", "x", "y", "n", "f", "k", "e", "err", "more", "r", "acc", "go", "v", "zz", "zz-unbound", "tmp"}
 
 func genCase(t *rapid.T) Case {
-	p := gen.Program(t, gen.PFlags{Cond: true, Try: true, QQ: true, Macros: true, Budget: 50, HotStr: true, FnEq: true})
+	p := gen.Program(t, gen.PFlags{Cond: true, Try: true, QQ: true, Macros: true, Budget: 50, HotStr: true, FnEq: true, Bulk: true})
 	c := Case{Forms: p.Forms}
 	for u := range p.Uses {
 		c.Uses = append(c.Uses, u)
